@@ -48,7 +48,13 @@ def make_obs_gen(cfg, key):
     pin_in = jnp.asarray(pin[:, 0]) if (cfg["cin"] == 1 and cfg["pin_1d"]) else jnp.asarray(pin)
     val_in = jnp.asarray(val[:, 0]) if (cfg["cval"] == 1 and cfg["val_1d"]) else jnp.asarray(val)
     prm_in = {k: (jnp.asarray(v) if cfg["p_1d"] else jnp.asarray(v)[:, None]) for k, v in prm.items()}
-    return jinns.data.DataGeneratorObservations(key, cfg["b"], pin_in, val_in, prm_in), (pin, val, prm)
+    kw = {}
+    if cfg.get("sharding_device"):
+        # documented option: keep the tables on a given device (another branch of the constructor)
+        import jax
+
+        kw["sharding_device"] = jax.sharding.SingleDeviceSharding(jax.devices()[0])
+    return jinns.data.DataGeneratorObservations(key, cfg["b"], pin_in, val_in, prm_in, **kw), (pin, val, prm)
 
 
 def check_obs_batch(batch, tables, cfg, labels):
@@ -84,7 +90,7 @@ def run_obs(case):
     import jax
 
     cfg = case["cfg"]
-    labels = ["obs", f"p{len(cfg['pnames'])}"]
+    labels = ["obs", f"p{len(cfg['pnames'])}"] + (["sharding_device"] if cfg.get("sharding_device") else [])
     g, tables = make_obs_gen(cfg, jax.random.PRNGKey(cfg["key"]))
     seen = set()
     for _ in range(cfg["calls"]):
@@ -108,7 +114,8 @@ def strat_obs():
         cfg = {"n": n, "b": b, "cin": draw(st.integers(1, 3)), "cval": draw(st.integers(1, 3)),
                "pnames": ["nu", "theta"][:np_], "pin_1d": draw(st.booleans()), "val_1d": draw(st.booleans()),
                "p_1d": draw(st.booleans()), "key": draw(st.integers(0, 2**31 - 1)),
-               "calls": draw(st.integers(1, 3)) * math.ceil(n / b) + draw(st.integers(0, 1))}
+               "calls": draw(st.integers(1, 3)) * math.ceil(n / b) + draw(st.integers(0, 1)),
+               "sharding_device": draw(st.booleans())}
         return {"cfg": cfg}
 
     return s()
